@@ -39,7 +39,7 @@ GEN_THEOREMS = ['Vakt.GenEquiv.gen_memory_add', 'Vakt.GenEquiv.gen_memory_update
                 'Vakt.GenEquiv.translatedRedis_covers', 'Vakt.GenEquiv.translatedMongo_covers']
 FLOOR = {'quick': 150, 'thorough': 2000}
 ASSUMPTIONS = ['Redis and MongoDB are in-process fakes of the client calls vakt makes (no servers in this sandbox); SQL is '
-               'the real SQLAlchemy on SQLite with foreign_keys=ON',
+               'the real SQLAlchemy on SQLite, connections with and without PRAGMA foreign_keys=ON',
                'uids are strings in this check; non-str uids through SQL/Redis are the C09 uid-type finding']
 UIDS = ['a', 'b', 'c', '1', 'B', '']
 KINDS = ['memory', 'sqlite', 'redis-json', 'redis-pickle', 'mongo',
@@ -129,7 +129,12 @@ def run_history(kind, rng, nmut, out):
     uids = uids_for(kind)
     big = kind.split(':')[-1] == 'memory'
     by_value = kind.split(':')[-1] in ('sqlite', 'redis-json', 'redis-pickle', 'mongo') and not kind.startswith('enfold')
-    st = stores.make(kind)
+    plain_sqlite = kind.split(':')[-1] == 'sqlite' and rng.random() < 0.4
+    stores.SQLITE_FOREIGN_KEYS = not plain_sqlite       # a plain SQLite connection: foreign keys (ON DELETE CASCADE) not enforced
+    try:
+        st = stores.make(kind)
+    finally:
+        stores.SQLITE_FOREIGN_KEYS = True
     log = call_log(st)
     calls = []
     pool = []            # content id -> key
@@ -235,7 +240,8 @@ def run_history(kind, rng, nmut, out):
             ops.append('retr %d' % b)
             outs.append(do('retr', b))
     line = 'STORE %s %s %d %s' % ('T' if sorted_ else 'F', 'T' if eager else 'F', len(ops), ' '.join(ops))
-    return line, outs, {'backend': kind, 'history': human, 'calls': calls, 'nops': len(ops), 'ops': ops}
+    return line, outs, {'backend': kind + (' (plain connection: PRAGMA foreign_keys not set)' if plain_sqlite else ''),
+                        'history': human, 'calls': calls, 'nops': len(ops), 'ops': ops}
 
 
 BACKEND_MODEL = {'memory': 'memory', 'sqlite': 'sql', 'redis-json': 'redis', 'redis-pickle': 'redis', 'mongo': 'mongo',
@@ -333,6 +339,7 @@ def run(ctx):
             out.samples.append({'backend': desc['backend'], 'history': desc['history'][:8], 'impl_outputs': outs[:14]})
     _large_collections(ctx, out, rng)
     _sql_statement_faults(ctx, out, rng)
+    _uid_reused(ctx, out, rng)
     out.rule = ('for each of %d backends/wrappers: histories of 3-%d mutations over uids %r and generated policies (string-'
                 'based, rule-based with context, empty, and ones SQL/Mongo cannot convert because a later field is '
                 'malformed), plus limit/offset/batch edge reads; after EVERY mutation the whole store is read back by get '
@@ -387,6 +394,62 @@ def _concrete_model(out, line, bl, m, outs, desc):
 
 def _split_ops(ops):
     return list(ops)
+
+
+def _uid_reused(ctx, out, rng):
+    """a uid is a key and nothing more: a policy stored under a uid that held another policy before - deleted, or replaced by an update -
+    is read back as the policy that was stored last, element for element.  Every backend; SQLite on connections with and without
+    PRAGMA foreign_keys=ON (a plain connection does not enforce ON DELETE CASCADE)"""
+    for _ in range(ctx.budget(6, 60)):
+        for kind in KINDS:
+            plain = kind.split(':')[-1] == 'sqlite' and rng.random() < 0.5
+            stores.SQLITE_FOREIGN_KEYS = not plain
+            try:
+                st = stores.make(kind)
+            finally:
+                stores.SQLITE_FOREIGN_KEYS = True
+            u = pick(rng, ['a', 'B', '1'])
+            hist, last = [], None
+            try:
+                for step in range(rng.randint(2, 5)):
+                    p, bad = gen_policy(rng, u, step)
+                    if bad:
+                        continue
+                    if last is None:
+                        st.add(p)
+                        hist.append('add %s v%d' % (u, step))
+                    elif rng.random() < 0.6:
+                        st.delete(u)
+                        st.add(p)
+                        hist.extend(['delete %s' % u, 'add %s v%d' % (u, step)])
+                    else:
+                        st.update(p)
+                        hist.append('update %s v%d' % (u, step))
+                    last = p
+                if last is None:
+                    continue
+                back = st.get(u)
+                listed = [x for x in st.retrieve_all() if x.uid == u]
+            except Exception as e:
+                f = Failure('oracle', {'backend': kind + (' (plain connection)' if plain else ''), 'history': hist},
+                            '%s: %s' % (type(e).__name__, str(e)[:160]), None, 'a legal history raised', 'Vakt.C08.refines_map')
+                f.signature = 'uid-reused-raised'
+                out.failures.append(f)
+                return
+            out.evaluations += 1
+            out.count('uid-reused:' + kind.split(':')[-1] + ('-plain' if plain else ''))
+            want = content_key(last)
+            got = [content_key(x) for x in ([back] if back is not None else [])]
+            got_l = [content_key(x) for x in listed]
+            if got != [want] or got_l != [want]:
+                f = Failure('oracle', {'backend': kind + (' (plain connection: PRAGMA foreign_keys not set)' if plain else ''),
+                                       'history': hist + ['get %s' % u, 'retrieve_all()']},
+                            {'get': [repr(back)[:300]], 'retrieve_all': [repr(x)[:300] for x in listed]}, None,
+                            'the uid holds %r, stored last; what is read back differs' % (repr(last)[:300],),
+                            'Vakt.C08.refines_map')
+                f.signature = 'uid-reused'
+                out.failures.append(f)
+                return
 
 
 def _sql_statement_faults(ctx, out, rng):
